@@ -129,6 +129,22 @@ CHECKS.update(
     ),
 )
 
+CHECKS.update(
+    C20=dict(
+        category="model_checking",
+        text="User subclass trees (chain, fork) under KittyImage / ITerm2Image are created at run time; histories of set/unset operations on "
+        "any class or instance (target, action and value kind are solver-forked selectors; JPEG quality and the native-animation limit are "
+        "z3 integers validated symbolically by the real setters) are applied to the real descriptors / metaclass properties and to a "
+        "dictionary-per-node model of 'own value, else nearest ancestor, else default'. After every operation every node's effective "
+        "value is compared with the model, rejected operations must raise the documented error type and change nothing; a real render "
+        "shows that the method in use is the per-call override or the effective method.",
+        note="Trusted: the inheritance model in harness/C20.py, z3, engine. Trees of 3 classes, one instance per class, histories of the "
+        "stated length, one setting at a time.",
+        design="3 C20",
+        technique=TECH_M,
+    ),
+)
+
 PENDING = {}
 
 
